@@ -65,6 +65,8 @@ def random_history(job):
         t = rng.randint(1, len(d.sheets[s - 1].tables))
         tb = env.table(h, s, t)
         nr, nc = tb.num_rows, tb.num_cols
+        if nr < 1 or nc < 1:
+            break             # the table reports an impossible size (already recorded by the last event): nothing sensible can follow
         k = rng.random()
         if k < 0.35:
             r = rng.randint(1, nr + (2 if rng.random() < 0.2 else 0))
@@ -79,10 +81,16 @@ def random_history(job):
         elif k < 0.69 and nr > 1:
             n = rng.randint(1, min(3, nr - 1))
             at = rng.choice([0] + list(range(1, nr - n + 2)))
+            if rng.random() < 0.15:
+                at = rng.randint(1, nr)
+                n = nr - at + 2                                           # one more than there are from `at` on: refused, nothing deleted
             do({"op": "delrow", "h": h, "s": s, "t": t, "n": n, "at": at})
         elif k < 0.79 and nc > 1:
             n = rng.randint(1, min(3, nc - 1))
             at = rng.choice([0] + list(range(1, nc - n + 2)))
+            if rng.random() < 0.15:
+                at = rng.randint(1, nc)
+                n = nc - at + 2                                           # one more than there are from `at` on
             do({"op": "delcol", "h": h, "s": s, "t": t, "n": n, "at": at})
         elif k < 0.83 and len(d.sheets[s - 1].tables) < 3:
             nm = rng.choice(["AUTO", "T2", "T3", "X", "t1", "x"])
@@ -166,6 +174,8 @@ def fixture_history(job):
         s, t = rng.choice(plain)
         tb = env.table(1, s, t)
         nr, nc = tb.num_rows, tb.num_cols
+        if nr < 1 or nc < 1:
+            break
         k = rng.random()
         if k < 0.35:
             do({"op": "write", "h": 1, "s": s, "t": t, "r": rng.randint(1, nr + (1 if rng.random() < 0.2 else 0)), "c": rng.randint(1, nc + (1 if rng.random() < 0.2 else 0)), "v": fresh()})
@@ -247,6 +257,9 @@ def run(ctx):
     def round_trip(h):
         ops = [o["op"] for o in h[0]]
         return "write" in ops and "save" in ops and "open" in ops and ops.index("write") < ops.index("save") < len(ops) - 1 - ops[::-1].index("open")
+    # (a deletion refused in the abstract table - start or count outside it - is not refused once the table is embedded behind
+    # 254 leading rows / columns: such histories make no sense under a boundary profile)
+    bhist = [h for h in bhist if not any(o["op"] in ("delrow", "delcol") and o["out"] == "IndexError" for o in h[0])]
     brt = [h for h in bhist if round_trip(h)]
     rest = [h for h in bhist if not round_trip(h)]
     nb = 60 if q else 600
